@@ -261,3 +261,55 @@ def run_interleaved(case):
     outcome = run(Ctx("a"), consume())
     got = outcome[1] if outcome[0] == "return" else [("crashed", repr(outcome[1]))] * 2
     return [(got[k], _reference(subs[k])) for k in (0, 1)]
+
+
+MUTABLE_KINDS = ("list", "deque", "dict", "set", "ordereddict", "bytearray")
+
+
+@st.composite
+def late_mutation_cases(draw, tools):
+    case = draw(native_cases(tools))
+    case["kinds"][0] = draw(st.sampled_from(MUTABLE_KINDS))
+    case["extra"] = draw(st.integers(10, 15))
+    return case
+
+
+def _grow(container, extra):
+    if isinstance(container, (dict, collections.OrderedDict)):
+        container[extra] = 0
+    elif isinstance(container, set):
+        container.add(extra)
+    else:
+        container.append(extra)
+
+
+def run_late_mutation(case):
+    """the first source is a mutable container that the caller changes AFTER having created the library iterator and
+    BEFORE asking it for anything: nothing has been asked of the container yet, so this is the same as having changed it
+    before (both runs are the library's own: the stdlib counterparts take their iterators when they are created)"""
+    tool, p = case["tool"], case["p"]
+    _, lib, _ref = TOOLS_N[tool]
+
+    def sources():
+        return [make(k, d) for k, d in zip(case["kinds"], case["data"])]
+
+    async def consume(late):
+        S = sources()
+        if not late:
+            _grow(S[0], case["extra"])
+        made = lib(S, p)
+        if late:
+            _grow(S[0], case["extra"])
+        items = []
+        try:
+            async for x in made:
+                items.append(_norm(x))
+        except Exception as exc:
+            return ("items", items, type(exc).__name__)
+        return ("items", items, "stop")
+
+    out = []
+    for late in (True, False):
+        outcome = run(Ctx("a"), _guard(lambda late=late: consume(late)))
+        out.append(outcome[1] if outcome[0] == "return" else ("crashed", repr(outcome[1])))
+    return out[0], out[1]
